@@ -221,6 +221,22 @@ for _i, (_name, (_lv, _tree)) in enumerate(LAYOUT_TREES.items()):
     LAYOUTS[_name] = ("LAY_%s" % _name.upper(), _lv, len(tree_entries(_tree)), "levels %d: %s" % (_lv, tree_str(_tree)))
 
 
+def data_parents(tree):
+    """-> list over the deepest index blocks of the lists of their data blocks' entry lists"""
+    out = []
+
+    def walk(t):
+        if t[0] == "I":
+            kids = [c for c in t[1] if c[0] == "D"]
+            if kids:
+                out.append([c[1] for c in kids])
+            for c in t[1]:
+                if c[0] == "I":
+                    walk(c)
+    walk(tree)
+    return out
+
+
 def layout_numbering(tree):
     """Block ids in the order build_layout creates them (DFS post-order). -> (root id, per-entry paths, blocks per level)
     path[i] = [(block, pos) for index level 0..levels] + [(data block, pos)]"""
@@ -605,15 +621,22 @@ def GS(op, layout, props, tier="quick", mem="light", timeout=1800, minlen=1, max
             covers += ["f.loads == 1", "f.loads as usize >= %d" % (LAYOUTS[layout][1] + 2)]
     elif op in ("next", "prev"):
         call = "step_move(%s, %s, %d, %d)" % (L, "true" if op == "next" else "false", minlen, maxlen)
-        covers = ["f.expect.is_none()", "f.expect.is_some() && f.loads == 0", "f.expect.is_some() && f.loads == 1"]
-        if LAYOUTS[layout][1] >= 2:
-            covers.append("f.expect.is_some() && f.loads >= 2")
+        covers = ["f.expect.is_none()"]
+        _parents = data_parents(LAYOUT_TREES[layout][1])
+        if any(len(d) >= 2 for kids in _parents for d in kids):
+            covers.append("f.expect.is_some() && f.loads == 0")   # a data block with two entries
+        if any(len(kids) >= 2 for kids in _parents):
+            covers.append("f.expect.is_some() && f.loads == 1")   # two data blocks under one index block
+        if len(_parents) >= 2:
+            covers.append("f.expect.is_some() && f.loads >= 2")   # crossing into another index block
     elif op == "current":
         call = "step_current(%s, %d, %d)" % (L, minlen, maxlen)
         covers = ["f.i == 0", "f.i + 1 == f.n"]
     else:
         call = "step_clone(%s, %s, %d, %d)" % (L, "true" if op == "clonenext" else "false", minlen, maxlen)
-        covers = ["f.expect.is_some() && f.loads >= 1", "f.expect.is_none()"]
+        covers = ["f.expect.is_none()"]
+        if sum(len(k) for k in data_parents(LAYOUT_TREES[layout][1])) >= 2:
+            covers.append("f.expect.is_some() && f.loads >= 1")
     src = "glue_harness!(%s, %d, {\n    let f = %s;\n%s    let _ = &f;\n});\n" % (
         name, unwind, call, "".join("    kani::cover!(%s);\n" % c for c in covers))
     GEN_CURSOR.append((name, src))
